@@ -138,3 +138,24 @@ Lemma reencode_partial b m : DnsMessage.unpack b = Ok m -> wf_msg m ->
 Proof.
   intros _ Hwf G. exists (msgwire m). apply message_roundtrip; assumption.
 Qed.
+
+(* ---------- histories: pack has no memory ---------- *)
+Lemma pack_history_independent (h : list name) (n : name) :
+  nth (length h) (pack_history (h ++ [n])) (Err EOther) = pack n.
+Proof.
+  unfold pack_history. rewrite map_app, app_nth2 by (rewrite map_length; lia).
+  rewrite map_length, Nat.sub_diag. reflexivity.
+Qed.
+
+Lemma pack_history_roundtrip (names : list name) : Forall wf_name names ->
+  Forall2 (fun n r => r = Ok (wire_name n) /\ DnsNames.unpack (wire_name n) = Ok n) names (pack_history names).
+Proof.
+  induction 1 as [|n l Hn _ IH]; [constructor|]. cbn [pack_history map]. constructor; [|exact IH].
+  destruct (name_roundtrip n Hn) as [U P]. auto.
+Qed.
+
+(* two spellings of one name that differ only in ASCII case stay different on the wire *)
+Lemma case_variants_example :
+  pack_history [[x77;x57;x77;x2e;x61]; [x77;x77;x77;x2e;x61]; [x57;x57;x57;x2e;x41]]
+  = [Ok [x03;x77;x57;x77;x01;x61;x00]; Ok [x03;x77;x77;x77;x01;x61;x00]; Ok [x03;x57;x57;x57;x01;x41;x00]].
+Proof. vm_compute. reflexivity. Qed.
